@@ -2,8 +2,8 @@ package main
 
 import (
 	"fmt"
-	"os"
 	"math/big"
+	"os"
 	"sort"
 
 	abci "github.com/cometbft/cometbft/abci/types"
